@@ -10,6 +10,7 @@ open Sso.Forward Sso.Harden
 def strs (j : Json) (k : String) : List String := (jstrArr j k).toOption.getD []
 def strD (j : Json) (k : String) : String := (jstr j k).toOption.getD ""
 def boolD (j : Json) (k : String) : Bool := (jbool j k).toOption.getD false
+def intD (j : Json) (k : String) : Int := (jint j k).toOption.getD 0
 def getJ (j : Json) (k : String) : Json := (j.getObjVal? k).toOption.getD Json.null
 
 def hmapOf (j : Json) : HMap :=
@@ -32,6 +33,19 @@ def checkCase (j : Json) : Except String Verdict := do
     | .ok (.obj kvs) => kvs.foldl (init := []) fun acc k v => acc ++ [(k, v.getStr?.toOption.getD "")]
     | _ => []
   let c : Forward.Cfg := { cookieName := "_sso_proxy", inject := inject }
+  -- overlapping uploads: the pipeline is a function of each request alone, so each backend receives exactly the body that
+  -- was sent to it, under a signature that verifies over it — whatever else is in flight
+  let ov := getJ j "overlap"
+  if !ov.isNull then
+    v := v.br (if boolD ov "overlapped" then "overlap/overlapped" else "overlap/not-overlapped")
+    v := { v with nontrivial := true }
+    v := v.cmp 0 "overlap.status" (200, 200) (intD ov "statusA", intD ov "statusB") ["C12"]
+    for k in ["A", "B"] do
+      if strD ov ("recv" ++ k) != strD ov ("sent" ++ k) then
+        v := v.mon "C12" "body_intact" 0 s!"upload {k} (overlapping another upload): sent {strD ov ("sent" ++ k)}, upstream received {strD ov ("recv" ++ k)}"
+      if !(boolD ov ("rsa" ++ k)) then
+        v := v.mon "C12" "rsa_signature_verifies_at_upstream" 0 s!"upload {k} (overlapping another upload)"
+    return v
   let mut idx := 0
   for rq in ((jarr j "reqs").toOption.getD #[]) do
     let inp := getJ rq "in"
